@@ -114,6 +114,10 @@ def spec_run(case):
         elif k in ("setslice", "setword"):
             r = st[1]
             a, b, val = (st[2], st[3], st[4]) if k == "setslice" else (st[2], st[2] + 32, st[3])
+            if k == "setslice" and len(st) > 6:
+                # slice assignment with omitted bounds: an omitted start is 0, an omitted stop the current length
+                a = 0 if "start" in st[6] else a
+                b = len(objs[r]) if "stop" in st[6] else b
             objs[r], raised = fa_set_slice(objs[r], a, b, spec_val(objs, val))
             out.append(("step", raised, [list(o) for o in objs]))
         elif k == "get":
@@ -321,8 +325,10 @@ def impl_run_inner(case):
                     else:
                         objs[r].set_byte(off, v)
                 elif k == "setslice":
-                    if len(st) > 5 and st[5] == "setitem" and st[3]:
-                        objs[st[1]][st[2]:st[3]] = mkval(objs, st[4], k)
+                    if len(st) > 5 and st[5] == "setitem":
+                        omit = st[6] if len(st) > 6 else ""
+                        key = slice(None if "start" in omit else st[2], None if "stop" in omit else st[3])
+                        objs[st[1]][key] = mkval(objs, st[4], k)
                     elif len(st) > 5 and st[5] == "state":
                         from halmos.sevm import State
                         State(stack=[], memory=objs[st[1]]).set_mslice(st[2], mkval(objs, st[4], k))
@@ -373,6 +379,8 @@ def enc_case(case):
             out += [3, st[1]] + enc_val(st[2])
         elif k == "setbyte":
             out += [4, st[1], st[2], 1 if st[3] >= SYM_BASE else 0, st[3]]
+        elif k == "setslice" and len(st) > 6:
+            out += [10, st[1], 0 if "start" in st[6] else 1, st[2], 0 if "stop" in st[6] else 1, st[3]] + enc_val(st[4])
         elif k == "setslice":
             out += [5, st[1], st[2], st[3]] + enc_val(st[4])
         elif k == "setword":
@@ -618,7 +626,13 @@ class Gen:
         form = r.choice(["call", "call", "setitem"])
         if b >= a and n == b - a and v[0] != "leaf" and r.random() < 0.5:
             form = "state"  # State.set_mslice(loc, data)
-        self.steps.append(["setslice", o, a, b, v, form])
+        step = ["setslice", o, a, b, v, form]
+        if form == "setitem":
+            # bv[a:b] = v, bv[:b] = v, bv[a:] = v, bv[:] = v (a bound is omitted only where that means the same)
+            omit = ("start" if a == 0 and r.random() < 0.5 else "") + ("stop" if b == self.len[o] and r.random() < 0.7 else "")
+            if omit:
+                step.append(omit)
+        self.steps.append(step)
         if b > a and n == b - a:
             self.len[o] = max(self.len[o], b)
 
@@ -795,6 +809,8 @@ def classify(case, impl):
         if st[0] in ("setslice", "setword") and prev is not None and not o[1]:
             a, b = (st[2], st[3]) if st[0] == "setslice" else (st[2], st[2] + 32)
             ln, lay, _ = prev[st[1]]
+            if st[0] == "setslice" and len(st) > 6:
+                kinds.add("setitem-omitted-bound")
             top = top_chunks(lay)
             if a == b:
                 kinds.add("noop")
@@ -851,8 +867,8 @@ def top_chunks(lay):
 
 
 def setitem_probe(rep, exe):
-    """bv[start:stop] = bytes over a grid of optional bounds; implementation vs model (must agree,
-    defect included) vs flat slice assignment (deviations are failing inputs)."""
+    """bv[start:stop] = bytes over a grid of optional bounds (omitted, explicit 0, inside, at and beyond the end):
+    implementation vs flat slice assignment with optional bounds (deviations are failing inputs) vs model."""
     from halmos.bytevec import ByteVec
 
     cases = []
@@ -866,6 +882,7 @@ def setitem_probe(rep, exe):
         calls.append(("c07_setitem", [0 if start is None else 1, start or 0, 0 if stop is None else 1, stop or 0, len(init)] + init + [len(val)] + val))
     model = Model(exe).batch(calls) if exe is not None else None
     known_hits = {}
+    nbad = 0
     for i, (init, start, stop, val) in enumerate(cases):
         case = {"tag": "setitem", "init": init, "start": start, "stop": stop, "value": val}
         bv = ByteVec(bytes(init)) if init else ByteVec()
@@ -884,29 +901,24 @@ def setitem_probe(rep, exe):
         want = (sr, sl)
         rep.case(case, nontrivial=bool(init) and a < b)
         rep.count("tag", "setitem")
+        rep.count("setitem_bounds", ("start-omitted" if start is None else "start-0" if start == 0 else "start>0") + "/" + ("stop-omitted" if stop is None else "stop-0" if stop == 0 else "stop>0"))
         if got != want:
-            sig = {"observable": "setitem-explicit-stop-0" if stop == 0 else "setitem", "op": "setitem"}
+            nbad += 1
+            sig = {"observable": "setitem", "op": "setitem", "start": "omitted" if start is None else start, "stop": "omitted" if stop is None else stop}
             k = next((k for k in KNOWN if common.finding_matches(k, {"sig": sig})), None)
             what = f"ByteVec({bytes(init)!r})[{start}:{stop}] = {bytes(val)!r}: implementation (raised, content) = {got}, flat slice assignment = {want}"
             if k is not None:
                 known_hits.setdefault(k["id"], []).append(case)
-            else:
+            elif nbad <= 5:
                 rep.fail("failing-input", what, case={"case": case, "implementation": got, "spec": want}, sig=sig)
-            # the model must reproduce the defect
+            continue
         if model is not None:
             m = model[i]
             mgot = (bool(m[0]), m[2:2 + m[1]]) if m else None
             if mgot != (bool(got[0]), got[1]) or (got[0] not in (False, True)):
-                rep.fail("broken-tie", f"model and implementation disagree on {case}: implementation {got}, model {mgot}", case={"case": case})
-    # the witness of C07_setitem_refuted must still show on the implementation
-    bv = ByteVec(bytes([1, 2, 3, 4]))
-    try:
-        bv[2:0] = bytes([8, 9])
-        w = list(bv.unwrap())
-    except Exception as e:  # noqa: BLE001
-        w = type(e).__name__
-    if w != [1, 2, 8, 9]:
-        rep.fail("broken-tie", f"the witness of C07_setitem_refuted no longer shows on the implementation (got {w}): the model of __setitem__ is stale", case={"witness": w})
+                nbad += 1
+                if nbad <= 5:
+                    rep.fail("broken-tie", f"model and implementation disagree on {case}: implementation {got}, model {mgot}", case={"case": case})
     for kid, hits in known_hits.items():
         k = next(k for k in KNOWN if k["id"] == kid)
         print(f"KNOWN-FINDING: property={PID} {kid}: {k['what']}")
